@@ -183,6 +183,12 @@ def run_check(mod, tier, seed, fresh_confirm=True):
                 known_hit.setdefault(k['what'], v)
             else:
                 new.append(v)
+        # report across invariants first (round-robin over the invariant names), so that the few signatures that are
+        # minimised and written as replay files show every clause that failed rather than eight variants of one
+        groups = {}
+        for v in new:
+            groups.setdefault(v['invariant'], []).append(v)
+        new = [g[k] for k in range(max([len(g) for g in groups.values()] or [0])) for _, g in sorted(groups.items()) if k < len(g)]
         exit_code = 0
         reported = []
         for v in new[:MAX_REPORTED]:
